@@ -15,7 +15,7 @@ CHECK_DEADLOCK FALSE
 """
 
 
-def oracle_replay(ctx, seed_recs, ply, props, text=False, attacks=False, game_sample=0, label="oracle", timeout=7200):
+def oracle_replay(ctx, seed_recs, ply, props, text=False, attacks=False, game_sample=0, label="oracle", timeout=7200, boards_out=None):
     """TLC explores layer R breadth-first from the seeds and prints one record per state; the
     harness replays every record against the real code.  Returns the harness summary."""
     seeds_path = write_ndjson(ctx.path(label + "_seeds.ndjson"), seed_recs)
@@ -28,7 +28,10 @@ def oracle_replay(ctx, seed_recs, ply, props, text=False, attacks=False, game_sa
         raise ToolError("oracle generation stopped: %s\n%s" % (r.violated, r.tail))
     if r.nrecords != r.distinct:
         raise ToolError("oracle generation printed %d records for %d states" % (r.nrecords, r.distinct))
-    summ = harness(["replay", out, "--props", ",".join(props), "--threads", "16", "--game-sample", str(game_sample)], timeout=timeout)
+    hargs = ["replay", out, "--props", ",".join(props), "--threads", "16", "--game-sample", str(game_sample)]
+    if boards_out:
+        hargs += ["--boards-out", boards_out]
+    summ = harness(hargs, timeout=timeout)
     if summ["records"] != r.nrecords:
         raise ToolError("harness replayed %d of %d oracle records" % (summ["records"], r.nrecords))
     os.unlink(out)
